@@ -321,7 +321,7 @@ def check(prog, run):
             continue
         t = sites[0][1]
         for i, (an_, want, default) in enumerate(args):
-            e = sym.expr(b, t["args"][i + 1])
+            e = sym.expand_phi(b, sym.expr(b, t["args"][i + 1]))
             params = {s[2] for s in sym.sources(e) if s[0] == "arg"} | {mir.debug_name(b, s[1]) for s in sym.sources(e) if s[0] == "var"}
             params = {p for p in params if p}
             # a binding introduced by `if let Some(x) = option_param`: resolve `var` to the parameter it was matched from
